@@ -8,6 +8,7 @@ import (
 	"go/types"
 	"slices"
 	"strings"
+	"time"
 
 	"golang.org/x/tools/go/ssa"
 )
@@ -748,6 +749,9 @@ func (e *Engine) runFrame(fr *frame) {
 			e.steps++
 			if e.steps > e.cfg.MaxSteps && e.initMode == 0 {
 				panic(engineError{"step budget exceeded"})
+			}
+			if e.steps&0x3ffff == 0 && !e.cfg.Deadline.IsZero() && time.Now().After(e.cfg.Deadline) {
+				panic(engineError{"time budget exceeded"})
 			}
 			if e.cfg.Trace {
 				e.traceInstr(fr, instr)
